@@ -106,6 +106,20 @@ var properties = map[string]*Property{
 		}, commonAssumptions...),
 		OutsideClaim: []string{"Status with a non-positive interval (time.NewTicker panics by contract)", "more than two racing Start calls; histories mixing concurrent API calls other than Start"},
 	},
+	"C16": {
+		ID: "C16",
+		Runs: []Run{
+			{Dir: "c16", Pkg: "", Fn: "VerifC16Single", Needs: []string{"accepted", "rejected", "start accepted", "start refused"}},
+			{Dir: "c16", Pkg: "", Fn: "VerifC16Pairs", Needs: []string{"accepted", "rejected"}, ThoroughOnly: true},
+		},
+		Assumptions: append([]string{
+			"well-formedness predicate written from the statement: a valid base plan with at most one (quick) / two (thorough) mutations from 17 classes placed at every applicable object; Timeout and Retries of one action and every block's Concurrency are 64-bit solver variables",
+			"model plugin registry: plugins 'action' and 'check'; ValidateReq rejects a negative or wrongly typed request",
+			"registry.findSecrets (reflection, property C17) is stubbed to return nil; the model vault records Create",
+		}, commonAssumptions...),
+		OutsideClaim: []string{"plans beyond 2 blocks x 2 sequences x 2 actions; name/description strings other than a valid one, the empty string and whitespace",
+			"the execution that follows an accepted Start (C01..C08)"},
+	},
 }
 
 type eRun struct {
